@@ -1690,6 +1690,13 @@ func c09GenResp(rng *zzverif.Rng) c09Resp1 {
 // c09GenExchange: some hops the client may follow, then an ending
 func c09GenExchange(rng *zzverif.Rng, endings []c09Resp1) []c09Resp1 {
 	var s []c09Resp1
+	if rng.Chance(1, 40) {
+		// more redirects than net/http follows ("stopped after 10 redirects")
+		for i := 0; i < 12; i++ {
+			s = append(s, c09Resp1{zzverif.Pick(rng, []int{301, 302, 303}), true})
+		}
+		return s
+	}
 	for rng.Chance(1, 4) && len(s) < 3 {
 		s = append(s, c09Resp1{zzverif.Pick(rng, []int{301, 302, 303, 307, 308, 307, 308}), true})
 	}
